@@ -222,6 +222,61 @@ fn token_documents(max_len: usize) -> Vec<(String, String)> {
     out
 }
 
+/// Well-formed token documents beyond the complete depth: every sequence of `from..=to` tokens in
+/// which the two opening tokens (0, 2) and their closing tokens (1, 3) nest properly. The sequences
+/// dropped are exactly those roxmltree rejects before any zeep code sees a node, so nothing that
+/// reaches the reader is lost by the pruning (the complete enumeration up to `from - 1` tokens keeps
+/// the malformed ones).
+fn wellformed_token_documents(from: usize, to: usize) -> Vec<(String, String)> {
+    let open = "<xs:schema xmlns:xs=\"http://www.w3.org/2001/XMLSchema\" targetNamespace=\"urn:t\">";
+    let close = "</xs:schema>";
+    let mut out = vec![];
+    fn rec(idx: &mut Vec<usize>, stack: &mut Vec<usize>, from: usize, to: usize, out: &mut Vec<(String, String)>, open: &str, close: &str) {
+        if stack.is_empty() && idx.len() >= from {
+            let body: String = idx.iter().map(|i| TOKENS[*i]).collect::<Vec<_>>().join("");
+            out.push((format!("wellformed:{idx:?}"), format!("{open}{body}{close}")));
+        }
+        if idx.len() == to {
+            return;
+        }
+        for i in 0..TOKENS.len() {
+            match i {
+                0 | 2 => {
+                    // an opened element needs room for its closing token
+                    if idx.len() + stack.len() + 2 > to {
+                        continue;
+                    }
+                    stack.push(i);
+                    idx.push(i);
+                    rec(idx, stack, from, to, out, open, close);
+                    idx.pop();
+                    stack.pop();
+                }
+                1 | 3 => {
+                    if stack.last() != Some(&(i - 1)) {
+                        continue;
+                    }
+                    stack.pop();
+                    idx.push(i);
+                    rec(idx, stack, from, to, out, open, close);
+                    idx.pop();
+                    stack.push(i - 1);
+                }
+                _ => {
+                    if idx.len() + stack.len() + 1 > to {
+                        continue;
+                    }
+                    idx.push(i);
+                    rec(idx, stack, from, to, out, open, close);
+                    idx.pop();
+                }
+            }
+        }
+    }
+    rec(&mut vec![], &mut vec![], from, to, &mut out, open, close);
+    out
+}
+
 /// Reference-graph documents: every assignment of reference lists to three global components.
 /// Family `refs`: three global elements, each holding an ordered list of 0..2 `ref=`s to any of the
 /// three (self included). Family `bases`: three complex types, each with `base=` none or any of the
@@ -438,6 +493,12 @@ pub fn check(tier: &str) -> i32 {
         n_tok += 1;
         jobs.push(Job { seed: "token-grammar".into(), file: "t.xsd".into(), kind: "token-document".into(), detail: d, depth: 0, case: c });
     }
+    let wf_len = if tier == "quick" { 5 } else { 6 };
+    let mut n_wf = 0;
+    for (d, text) in wellformed_token_documents(tok_len + 1, wf_len) {
+        n_wf += 1;
+        jobs.push(Job { seed: "token-grammar".into(), file: "t.xsd".into(), kind: "token-document".into(), detail: d, depth: 0, case: Case { files: vec![("t.xsd".into(), text)], start: "t.xsd".into() } });
+    }
     let mut n_graph = 0;
     for (d, text) in reference_graph_documents(tier) {
         n_graph += 1;
@@ -557,7 +618,7 @@ pub fn check(tier: &str) -> i32 {
     rep.set("evaluations", json!(done));
     rep.set("max_depth", json!(if tier == "thorough" { 2 } else { 1 }));
     rep.set("exhaustive", json!(!stopped));
-    rep.set("bound", json!(format!("all single structural mutations (delete/duplicate/move/swap element, delete/empty/alter attribute, alter namespace declarations, retarget every QName attribute to every declared name / itself / undeclared prefix / dangling name, rename to an existing name, truncate at every tag boundary, replace root) of {} seed inputs{}; all token documents of <= {} tokens over an {}-token alphabet ({} documents); {} reference-graph documents (three global elements with every ordered list of 0-2 ref= each; three complex types with every base= and every member ref= to an element of one of the types); {} scaling documents (forward-reference ladders of 8-64 levels and width 2-3 by ref= and by base=+ref=, import lattices of 4-32 levels: cost must stay within the size-linear time limit); a start file that is not registered; 12-1000 namespaces sharing one abbreviation; raw non-XML texts", seeds.len(), if tier == "thorough" { "; all pairs of mutations for the generated seeds s0 and w0; signature-reduced single mutations of the large inputs" } else { "" }, tok_len, TOKENS.len(), n_tok, n_graph, n_scaling)));
+    rep.set("bound", json!(format!("all single structural mutations (delete/duplicate/move/swap element, delete/empty/alter attribute, alter namespace declarations, retarget every QName attribute to every declared name / itself / undeclared prefix / dangling name, rename to an existing name, truncate at every tag boundary, replace root) of {} seed inputs{}; all token documents of <= {} tokens over an {}-token alphabet ({} documents) and all well-formed ones (open/close tokens properly nested: the others are rejected by the XML parser before the reader sees a node) of up to {} tokens ({} more documents); {} reference-graph documents (three global elements with every ordered list of 0-2 ref= each; three complex types with every base= and every member ref= to an element of one of the types); {} scaling documents (forward-reference ladders of 8-64 levels and width 2-3 by ref= and by base=+ref=, import lattices of 4-32 levels: cost must stay within the size-linear time limit); a start file that is not registered; 12-1000 namespaces sharing one abbreviation; raw non-XML texts", seeds.len(), if tier == "thorough" { "; all pairs of mutations for the generated seeds s0 and w0; signature-reduced single mutations of the large inputs" } else { "" }, tok_len, TOKENS.len(), n_tok, wf_len, n_wf, n_graph, n_scaling)));
     rep.set("per_seed", json!(per_seed));
     rep.set("outcome_classes", json!(classes));
     rep.set("distinct_error_kinds", json!(err_kinds.len()));
